@@ -216,6 +216,9 @@ mod v_iface_neighbor {
         let pl: u8 = kani::any();
         kani::assume(pl <= max_prefix(&net));
         let via = any_unicast();
+        // a gateway is a neighbor: ::1 as gateway is a misconfiguration (the solicitation would be sourced from ::1)
+        #[cfg(feature = "proto-ipv6")]
+        kani::assume(via != IpAddress::Ipv6(Ipv6Address::LOCALHOST));
         crate::iface::Route {
             cidr: IpCidr::new(net, pl),
             via_router: via,
@@ -333,7 +336,8 @@ mod v_iface_neighbor {
                 let from_ll = eq_at(buf, 22, &OWN6_LL.octets());
                 let from_g = eq_at(buf, 22, &OWN6_G.octets());
                 assert!(from_ll || from_g, "prop:c16_request_sender_is_own_protocol_address");
-                if o[0] == 0xfe && o[1] == 0x80 {
+                if o[0] == 0xfe && o[1] == 0x80 && o[2] == 0 && o[3] == 0 && o[4] == 0 && o[5] == 0 && o[6] == 0 && o[7] == 0 {
+                    // a link-local neighbor is solicited from the link-local address (RFC 6724 scope rule)
                     assert!(from_ll, "prop:c16_request_sender_is_own_protocol_address");
                 }
                 assert!(eq_at(buf, 38, &[0xff, 0x02, 0, 0, 0, 0, 0, 0, 0, 0, 0, 0x01, 0xff, o[13], o[14], o[15]]), "prop:c16_solicitation_to_solicited_node_group");
@@ -409,7 +413,7 @@ mod v_iface_neighbor {
     }
 
     // ------------------------------------------------------------------ 3. next hop -> hardware address, one step
-    // @harness props=C16 cfg=KI4,KI6 tier=q to=900 mem=8 unwind=KI4:8,KI6:18 opts=nomem covers=7 funcs=InterfaceInner::lookup_hardware_addr;InterfaceInner::dispatch_ip;InterfaceInner::route;InterfaceInner::in_same_network;InterfaceInner::dispatch_ethernet;route::Routes::lookup;neighbor::Cache::lookup;neighbor::Cache::limit_rate bounds=Ethernet_interface_192.168.1.1/24_(IPv6:_fe80::1/64_+_2001:db8::1/64);_neighbor_cache_3_slots_holding_0..=3_entries_(any_unicast_keys,_addresses,_expiries),_any_silent_until;_0..=2_routes_(any_prefix,_gateway,_expiry);_any_unicast_destination_(all_address_bits_symbolic);_any_instant;_UDP_datagram_with_4_payload_bytes;_optional_lookup_hardware_addr_call_followed_by_dispatch_ip_at_the_same_instant
+    // @harness props=C16 cfg=KI4,KI6 tier=q to=900 mem=4 unwind=18 opts=nomem covers=7 funcs=InterfaceInner::lookup_hardware_addr;InterfaceInner::dispatch_ip;InterfaceInner::route;InterfaceInner::in_same_network;InterfaceInner::dispatch_ethernet;route::Routes::lookup;neighbor::Cache::lookup;neighbor::Cache::limit_rate bounds=Ethernet_interface_192.168.1.1/24_(IPv6:_fe80::1/64_+_2001:db8::1/64);_neighbor_cache_3_slots_holding_0..=3_entries_(any_unicast_keys,_addresses,_expiries),_any_silent_until;_0..=2_routes_(any_prefix,_gateway,_expiry);_any_unicast_destination_(all_address_bits_symbolic);_any_instant;_UDP_datagram_with_4_payload_bytes;_optional_lookup_hardware_addr_call_followed_by_dispatch_ip_at_the_same_instant
     #[kani::proof]
     pub(crate) fn lookup_hw_addr_step() {
         eth_env!(dev, iface, now, false);
@@ -582,7 +586,7 @@ mod v_iface_neighbor {
         o == [192, 168, 1, 255] || o == [10, 255, 255, 255]
     }
 
-    // @harness props=C16 cfg=KI4 tier=q to=900 mem=8 unwind=8 opts=nomem covers=5 funcs=InterfaceInner::process_arp;ArpRepr::parse;neighbor::Cache::fill;InterfaceInner::in_same_network;InterfaceInner::has_ip_addr bounds=Ethernet_interface_with_192.168.1.1/24_and_10.0.0.5/8;_all_28_ARP_bytes_symbolic_(any_hardware/protocol_type,_lengths,_operation,_addresses);_neighbor_cache_3_slots_in_any_state;_any_instant;_sender_=_directed_broadcast_of_an_own_subnet_excluded_(finding_arp_subnet_broadcast_sender)
+    // @harness props=C16 cfg=KI4 tier=q to=900 mem=4 unwind=18 opts=nomem covers=5 funcs=InterfaceInner::process_arp;ArpRepr::parse;neighbor::Cache::fill;InterfaceInner::in_same_network;InterfaceInner::has_ip_addr bounds=Ethernet_interface_with_192.168.1.1/24_and_10.0.0.5/8;_all_28_ARP_bytes_symbolic_(any_hardware/protocol_type,_lengths,_operation,_addresses);_neighbor_cache_3_slots_in_any_state;_any_instant;_sender_=_directed_broadcast_of_an_own_subnet_excluded_(finding_arp_subnet_broadcast_sender)
     #[kani::proof]
     pub(crate) fn cache_fill_only_validated_arp() {
         #[cfg(feature = "proto-ipv4")]
@@ -633,7 +637,7 @@ mod v_iface_neighbor {
     // The directed-broadcast address of an own subnet (192.168.1.255 on 192.168.1.0/24) is not a unicast sender
     // (`InterfaceInner::is_unicast_v4`, used for IPv4 sources in process_ipv4, says so), yet process_arp tests only the
     // address class (`x_is_unicast`) and learns it.  Excluded from cache_fill_only_validated_arp, asserted here.
-    // @harness props=C16 cfg=KI4 kind=finding tier=q to=600 mem=6 unwind=8 opts=nomem covers=2 funcs=InterfaceInner::process_arp;InterfaceInner::is_unicast_v4 bounds=ARP_request/reply_for_192.168.1.1_from_sender_protocol_address_192.168.1.255_or_10.255.255.255,_any_sender_hardware_address;_neighbor_cache_in_any_state
+    // @harness props=C16 cfg=KI4 kind=finding tier=q to=600 mem=4 unwind=18 opts=nomem covers=2 funcs=InterfaceInner::process_arp;InterfaceInner::is_unicast_v4 bounds=ARP_request/reply_for_192.168.1.1_from_sender_protocol_address_192.168.1.255_or_10.255.255.255,_any_sender_hardware_address;_neighbor_cache_in_any_state
     #[kani::proof]
     pub(crate) fn finding_arp_subnet_broadcast_sender() {
         #[cfg(feature = "proto-ipv4")]
@@ -668,7 +672,7 @@ mod v_iface_neighbor {
         }
     }
 
-    // @harness props=C16 cfg=KI6 tier=q to=900 mem=8 unwind=18 opts=nomem covers=6 funcs=InterfaceInner::process_ndisc;RawHardwareAddress::parse;neighbor::Cache::fill;neighbor::Cache::lookup;InterfaceInner::has_solicited_node bounds=Ethernet_interface_fe80::1/64_+_2001:db8::1/64,_SLAAC_off;_symbolic_NdiscRepr_of_every_kind_(NA,_NS,_RS,_RA,_Redirect)_with_any_flags,_any_target,_link-layer_option_absent_or_of_length_0..=6_with_any_bytes;_any_unicast_IPv6_source_(process_ipv6_drops_others),_any_destination;_hop_limit_255_(gate_in_process_icmpv6:_ndisc_hop_limit_gate);_neighbor_cache_3_slots_in_any_state
+    // @harness props=C16 cfg=KI6 tier=q to=900 mem=4 unwind=18 opts=nomem covers=6 funcs=InterfaceInner::process_ndisc;RawHardwareAddress::parse;neighbor::Cache::fill;neighbor::Cache::lookup;InterfaceInner::has_solicited_node bounds=Ethernet_interface_fe80::1/64_+_2001:db8::1/64,_SLAAC_off;_symbolic_NdiscRepr_of_every_kind_(NA,_NS,_RS,_RA,_Redirect)_with_any_flags,_any_target,_link-layer_option_absent_or_of_length_0..=6_with_any_bytes;_any_unicast_IPv6_source_(process_ipv6_drops_others),_any_destination;_hop_limit_255_(gate_in_process_icmpv6:_ndisc_hop_limit_gate);_neighbor_cache_3_slots_in_any_state
     #[kani::proof]
     pub(crate) fn cache_fill_only_validated_ndisc() {
         #[cfg(all(feature = "proto-ipv6", not(feature = "proto-ipv4")))]
@@ -753,7 +757,7 @@ mod v_iface_neighbor {
 
     // The off-link gate: NDISC is honoured only with hop limit 255 (RFC 4861 7.1.1/7.1.2), enforced in process_icmpv6.
     // Byte template (RFC 4861 4.4): neighbor advertisement with a target link-layer address option.
-    // @harness props=C16 cfg=KI6 tier=q to=900 mem=8 unwind=18 opts=nomem covers=2 funcs=InterfaceInner::process_icmpv6;Icmpv6Repr::parse;NdiscRepr::parse;InterfaceInner::process_ndisc bounds=32-byte_neighbor_advertisement_template_(flags,_target,_option_type_1_or_2,_link-layer_address_symbolic);_any_hop_limit;_any_unicast_source;_destination_fe80::1;_empty_neighbor_cache;_no_sockets
+    // @harness props=C16 cfg=KI6 tier=q to=900 mem=4 unwind=18 opts=nomem covers=2 funcs=InterfaceInner::process_icmpv6;Icmpv6Repr::parse;NdiscRepr::parse;InterfaceInner::process_ndisc bounds=32-byte_neighbor_advertisement_template_(flags,_target,_option_type_1_or_2,_link-layer_address_symbolic);_any_hop_limit;_any_unicast_source;_destination_fe80::1;_empty_neighbor_cache;_no_sockets
     #[kani::proof]
     pub(crate) fn ndisc_hop_limit_gate() {
         #[cfg(all(feature = "proto-ipv6", not(feature = "proto-ipv4")))]
@@ -794,7 +798,7 @@ mod v_iface_neighbor {
     }
 
     // ------------------------------------------------------------------ 5. socket data survives an unresolved neighbor
-    // @harness props=C16 cfg=KI4 tier=q to=900 mem=8 unwind=8 opts=nomem covers=4 funcs=Interface::socket_egress;udp::Socket::dispatch;InterfaceInner::dispatch_ip;InterfaceInner::lookup_hardware_addr;InterfaceInner::has_neighbor;socket_meta::Meta::egress_permitted;socket_meta::Meta::neighbor_missing;socket_meta::Meta::poll_at bounds=one_UDP_socket_with_one_queued_4-byte_datagram_to_any_on-link_host_192.168.1.x;_neighbor_cache_3_slots_in_any_state_without_a_live_entry_for_it;_any_silent_until;_device_with_or_without_a_free_transmit_buffer;_second_egress_after_the_address_was_learned
+    // @harness props=C16 cfg=KI4 tier=q to=900 mem=4 unwind=18 opts=nomem covers=4 funcs=Interface::socket_egress;udp::Socket::dispatch;InterfaceInner::dispatch_ip;InterfaceInner::lookup_hardware_addr;InterfaceInner::has_neighbor;socket_meta::Meta::egress_permitted;socket_meta::Meta::neighbor_missing;socket_meta::Meta::poll_at bounds=one_UDP_socket_with_one_queued_4-byte_datagram_to_any_on-link_host_192.168.1.x;_neighbor_cache_3_slots_in_any_state_without_a_live_entry_for_it;_any_silent_until;_device_with_or_without_a_free_transmit_buffer;_second_egress_after_the_address_was_learned
     #[kani::proof]
     pub(crate) fn egress_keeps_data_when_neighbor_unknown() {
         #[cfg(all(feature = "proto-ipv4", feature = "socket-udp"))]
@@ -885,7 +889,7 @@ mod v_iface_neighbor {
         }
     }
 
-    // @harness props=C16 kind=mustfail cfg=KI4 tier=q to=900 mem=8 unwind=8 opts=nomem
+    // @harness props=C16 kind=mustfail cfg=KI4 tier=q to=900 mem=4 unwind=18 opts=nomem
     #[kani::proof]
     pub(crate) fn iface_neighbor_must_fail() {
         eth_env!(dev, iface, now, false);
